@@ -348,6 +348,15 @@ def rel_queries(db, prop):
                 qs.append(Query('rel/k/%s' % n, q['c'], checks=['--no-standard-checks', '--bounds-check', '--pointer-check'], meta=q['meta'], timeout=600))
             except (bx2c.Unsupported, f77c.Unsupported, KeyError) as e:
                 skipped.append((n, 'NOT COVERED: ' + str(e)[:300]))
+        # decay0_bb against the reference's bb: one query per cut point and legacy mode (the mode is a constant in each)
+        for k, cname, mode in relk.bb_plan():
+            try:
+                q = relk.build_bb(db, prog, propid='C02', only=range(k, k + 1), mode=mode)
+                q['meta']['what'] = 'rel'
+                q['meta']['mode'] = mode
+                qs.append(Query('rel/bb/%s/mode%d' % (cname, mode), q['c'], checks=['--no-standard-checks', '--bounds-check'], meta=q['meta'], timeout=1500, mem_gb=10))
+            except (bx2c.Unsupported, f77c.Unsupported, KeyError) as e:
+                skipped.append(('decay0_bb %s mode %d' % (cname, mode), 'NOT COVERED: ' + str(e)[:300]))
     cands = sorted(l3.l3_routines(db).items()) + [(k, 'kernel') for k in KERNELS if k in db['funcs']]
     for name, kind in cands:
         if only and name not in only:
@@ -824,8 +833,17 @@ def prop_rel(prop, tier, seed):
     queries, skipped = rel_queries(db, prop)
     results = run_all(queries)
     cuts = sum(len(q.meta.get('cuts', [])) + 1 for q in queries)
+    extra_as = []
+    for q in queries:
+        fn_ = q.meta.get('function')
+        if q.meta.get('assumed_no_exc'):
+            extra_as.append('%s: %s' % (fn_, q.meta['assumed_no_exc']))
+        if q.meta.get('truncated_at'):
+            extra_as.append('%s: compared up to %s only (the angular-correlation tail is not covered)' % (fn_, q.meta['truncated_at']))
+        if q.meta.get('function') == 'decay0_bb':
+            extra_as.append('decay0_bb: legacy mode 1..20 (one query per mode and cut point); spthe1/spthe2 are compared through the sequence of array reads and writes of each segment, equal tables assumed at each cut point and every write checked')
     return evaluate(prop, queries, results, known, tier, seed, t0, skipped=skipped, selfcheck=sc,
-                    assumptions=ASSUMPTIONS.get('C01', []),
+                    assumptions=ASSUMPTIONS.get('C01', []) + sorted(set(extra_as)),
                     extra_cov={'routine_pairs': len(queries), 'cut_points': cuts,
                                'reference': 'resources/code/decay0/decay0_2020-04-20.for rendered by f77c on this run',
                                'arithmetic': 'uninterpreted + - * / and libm (equal under every interpretation => equal under IEEE); literals within 5e-6 relative are one constant'})
